@@ -289,9 +289,22 @@ func (d *Decimal) round() (int64, error) {
 		return 0, err
 	}
 
-	floatValue := float64(ud.n.Int64()) / math.Pow10(int(ud.scale))
-	roundedValue := math.Round(floatValue)
-	return int64(roundedValue), nil
+	if int64(ud.scale) > int64(len(ud.n.String()))+1 {
+		// Less than a tenth in magnitude; also keeps 10^scale below from being enormous.
+		return 0, nil
+	}
+
+	// Divide exactly: the coefficient may not fit an int64 (a fraction of 20 digits or more),
+	// and a float64 quotient loses the low digits that decide the rounding.
+	pow := new(big.Int).Exp(big.NewInt(10), big.NewInt(int64(ud.scale)), nil)
+	quo, rem := new(big.Int).QuoRem(ud.n, pow, new(big.Int))
+	if rem.Abs(rem).Lsh(rem, 1).Cmp(pow) >= 0 {
+		quo.Add(quo, big.NewInt(int64(ud.n.Sign())))
+	}
+	if !quo.IsInt64() {
+		return 0, &strconv.NumError{Func: "ParseInt", Num: d.String(), Err: strconv.ErrRange}
+	}
+	return quo.Int64(), nil
 }
 
 // Truncate returns a new decimal, truncated to the given number of
